@@ -102,4 +102,32 @@ PROPS = {
                            "pages_rewritten_in_place_while_a_reader_was_open": 50, "max_readers": 3}},
         "assumptions": ["single thread: histories that would need a file growth with an open reader are skipped (documented self-deadlock) and counted as inconclusive"],
     },
+    "C10": {
+        "level": "exploration",
+        "rule": "cases = long runs (quick 300, thorough 5000 transactions) of {fixed-size overwrite, variable-size overwrite incl. 4-page values, "
+                "delete/reinsert, sub-bucket create/delete} x {no reopen, reopen every 25} x {no reader, reader held open for a stretch}. After every "
+                "commit the header's page high-water mark hwm(t) is read from the file, the independent parser measures L = max live pages and "
+                "D = max pages newly written by one commit and checks page conservation. Bounds (derived from the allocation discipline, DESIGN.md "
+                "C10): fixed-size hwm <= L+2D+8 and no second-half growth above D; variable-size hwm <= 4(L+D)+16 and second-half growth <= 10%+D; "
+                "while a reader is open at most D pages per transaction; after it closes hwm(c+k) <= hwm(c+2)+D. "
+                "non-trivial = run of >= 40 transactions in which pages below the previous high-water mark were re-allocated.",
+        "run": generic(thorough_profiles=()),
+        "floors": {"any": {"transactions": 1000, "pages_allocated_below_previous_hwm(reuse)": 1000, "runs_with_periodic_reopen": 2, "runs_with_reader_held": 2}},
+        "assumptions": ["bounds are sufficient conditions for a plateau, not the tightest possible"],
+    },
+    "C06": {
+        "level": "exploration",
+        "rule": "cases = grammar histories with 40% rolled-back transactions (a quarter of them with 60-300 operations incl. bucket deletes). "
+                "(a) around every dropped write transaction: 128-bit fingerprint of the whole file and the shared free/pending/reader bookkeeping "
+                "(probe hook) must be identical, the next transaction must see the prior committed state; (b) twin run: the same history without "
+                "its rolled-back transactions must give the same contents digest and the same number of reachable pages after every commit; "
+                "(c) after every call that returned an error the transaction's whole view is re-read and must equal the unchanged model; "
+                "(d) on a third of the histories: every mutator (put, delete, create/get-or-create/delete bucket on Tx and on every Bucket, commit) "
+                "through a read-only transaction must return ReadOnlyTx, and neither that nor open+close may change the file's bytes. "
+                "non-trivial = history with at least one rolled-back transaction whose before/after state was compared.",
+        "run": generic(thorough_profiles=("verif-rel",)),
+        "floors": {"any": {"rollbacks_checked(file bytes + shared state)": 50, "twin_runs": 20, "read_only_mutator_calls": 500,
+                           "error_returning_calls_followed_by_full_verification": 50}},
+        "assumptions": ["physical page ids / high-water mark are not compared between twins (HashMap iteration order makes allocation order vary between identical runs)"],
+    },
 }
